@@ -78,6 +78,10 @@ def run(tier):
     traces = run_items(items)
     res.traces = res.evaluations = len(traces)
     judge(res, traces, wd)
+    import integrated
+    n_int = integrated.run(res, tier, wd)          # the integrated machine PEPit.tla: registries after every call (drift only)
+    res.traces += n_int
+    res.evaluations += n_int
     res.rule = ("histories = behaviours of spec/Registry.tla: every history of <= 1 fragment and a seeded sample of longer ones "
                 "(<= %d fragments out of 12: partition / LMI / composite / linear-operator models, failed construction, abandoned "
                 "model, unbounded and infeasible solves, referenced objects, verbose and heuristic solves) followed by each of 6 "
